@@ -121,6 +121,13 @@ func (ex *Exec) rootEnv(s *State, results []Val) *Env {
 	if results != nil {
 		ex.bindResults(env, ex.fn, results)
 	}
+	// source-level locals seen so far on this path (site assertions and loop
+	// invariants may name them); parameters and results take precedence
+	for n, nv := range fr.Names {
+		if _, taken := env.vars[n]; !taken && ex.g.specs[n] == nil {
+			env.vars[n] = SV{V: nv.V, T: nv.T}
+		}
+	}
 	ex.bindLets(env, ex.con)
 	for k, v := range s.Lets {
 		env.vars[k] = v
@@ -1118,6 +1125,26 @@ func (env *Env) evalCall(e *E) SV {
 			// number of separators bytes.Split finds in its argument (A-SPLIT)
 			a := env.term(env.eval(args[0]))
 			return SV{V: Scalar{App(SBV(64), "sep_count", a)}, T: types.Typ[types.Int]}
+		case "bound":
+			// bound(x): the path has reached the call site at which the site-level let x is bound
+			if len(args) != 1 || args[0].Op != "id" {
+				env.fail("bound(name) expects a site-let name")
+			}
+			if _, ok := env.s.Lets[args[0].Name]; ok {
+				return SV{V: Scalar{TTrue}, T: boolT}
+			}
+			return SV{V: Scalar{TFalse}, T: boolT}
+		case "flagBool", "flagIsSet":
+			// value / presence of a command-line flag (urfave/cli Context, modelled as functions of context and flag name)
+			c, n := env.term(env.eval(args[0])), env.term(env.eval(args[1]))
+			f := map[string]string{"flagBool": "flag_bool", "flagIsSet": "flag_set"}[callee.Name]
+			return SV{V: Scalar{Term{fmt.Sprintf("(%s %s %s)", f, c.S, n.S), SBool}}, T: boolT}
+		case "flagString":
+			c, n := env.term(env.eval(args[0])), env.term(env.eval(args[1]))
+			return SV{V: Scalar{Term{fmt.Sprintf("(flag_str %s %s)", c.S, n.S), SStr}}, T: types.Typ[types.String]}
+		case "flagStrings":
+			c, n := env.term(env.eval(args[0])), env.term(env.eval(args[1]))
+			return SV{V: Scalar{Term{fmt.Sprintf("(flag_strs %s %s)", c.S, n.S), SSlice}}, T: types.NewSlice(types.Typ[types.String])}
 		case "strJoin":
 			// strings.Join(parts, sep) as modelled by the strings.Split / strings.Join intrinsics (A-STRSPLIT)
 			a, b := env.term(env.eval(args[0])), env.term(env.eval(args[1]))
